@@ -9,6 +9,7 @@ import (
 	"mellium.im/xmpp"
 	"mellium.im/xmpp/component"
 	"mellium.im/xmpp/jid"
+	"mellium.im/xmpp/s2s"
 	"mellium.im/xmpp/websocket"
 
 	"mellium.im/xmpp/verifharness/hspeer"
@@ -268,6 +269,7 @@ func scripted() []*handshake {
 			return a
 		}},
 	}
+	hs = append(hs, s2sHandshakes()...)
 	hs = append(hs, stepFailHandshakes()...)
 	hs = append(hs, refusalHandshakes()...)
 	hs = append(hs, headerRefusalHandshakes()...)
@@ -276,4 +278,48 @@ func scripted() []*handshake {
 		h.Key, h.Chunk = h.Name, readChunk
 	}
 	return hs
+}
+
+// Server-to-server handshakes with the library's own voluntary feature
+// (XEP-0288 bidi, which writes its element through a token writer and leaves
+// flushing to the deferred Close) in front of SASL in one features list.
+func s2sHandshakes() []*handshake {
+	const peerDomain = "example.org"
+	peerJID := jid.MustParse(peerDomain)
+	srvHdr := func(id string) string {
+		return hspeer.Header(hspeer.HeaderOpts{NS: hspeer.NSServer, From: peerDomain, To: server, ID: id})
+	}
+	bidiAd := `<bidi xmlns='` + s2s.NSBidiFeature + `'/>`
+	return []*handshake{
+		{Name: "s2s-bidi-sasl-init", Role: "init", Expect: "ok", New: func() *attempt {
+			a := &attempt{}
+			a.peer = hspeer.NewPeer(
+				hspeer.Step{Want: []string{"stream"}, Reply: hspeer.Say(srvHdr("s1") + hspeer.Features(false, bidiAd+mechs))},
+				hspeer.Step{Want: []string{"bidi", "auth"}, Reply: hspeer.Say(hspeer.El(hspeer.NSSASL, "success"))},
+				hspeer.Step{Want: []string{"stream"}, Reply: hspeer.Say(srvHdr("s2") + hspeer.Features(false, ""))},
+			)
+			a.call = func(ctx context.Context, conn io.ReadWriter, log *hspeer.Log) (*xmpp.Session, error) {
+				fs := hspeer.InstrumentAll(log, s2s.Bidi(), xmpp.SASL("example.net", "pw", sasl.Plain))
+				return xmpp.NewSession(ctx, peerJID, serverJID, conn, xmpp.Secure|xmpp.S2S, xmpp.NewNegotiator(cfgOf(fs)))
+			}
+			return a
+		}},
+		{Name: "s2s-bidi-sasl-recv", Role: "recv", Expect: "ok", New: func() *attempt {
+			a := &attempt{}
+			cliHdr := hspeer.Header(hspeer.HeaderOpts{NS: hspeer.NSServer, To: server})
+			a.peer = hspeer.NewPeer(
+				hspeer.Step{Want: nil, Reply: hspeer.Say(cliHdr)},
+				hspeer.Step{Want: []string{"stream", "features"}, Reply: hspeer.Say(`<auth xmlns='` + hspeer.NSSASL + `' mechanism='PLAIN'>` + plainAuth() + `</auth>`)},
+				hspeer.Step{Want: []string{"success"}, Reply: hspeer.Say(cliHdr)},
+				hspeer.Step{Want: []string{"stream", "features"}, Reply: hspeer.Say(hspeer.El(nsM, "select"))},
+			)
+			a.call = func(ctx context.Context, conn io.ReadWriter, log *hspeer.Log) (*xmpp.Session, error) {
+				// (a receiving session only becomes ready through a feature that says so)
+				last := hspeer.Custom(hspeer.CustomCfg{NS: nsM, Local: "m", Req: true, Necessary: xmpp.Authn, OKMask: xmpp.Ready})
+				fs := hspeer.InstrumentAll(log, s2s.Bidi(), xmpp.SASLServer(perm, sasl.Plain), last)
+				return xmpp.ReceiveSession(ctx, conn, xmpp.Secure|xmpp.S2S, xmpp.NewNegotiator(cfgOf(fs)))
+			}
+			return a
+		}},
+	}
 }
